@@ -30,22 +30,22 @@ Print Assumptions C10_last_region.
 
 (* entering a final state raises at most one done event: for the NEAREST ancestor
    that declares onDone and is done *)
-Theorem C10_fire_once : forall eng m fin s,
-  s_queue (fire_on_done eng m fin s) = s_queue s
+Theorem C10_fire_once : forall eng pr m fin s,
+  s_queue (fire_on_done eng pr m fin s) = s_queue s
   \/ exists a, In a (ancestors m fin) /\ wants_done m (s_cfg s) a = true
-               /\ s_queue (fire_on_done eng m fin s) = s_queue s ++ [done_event m a 0].
+               /\ s_queue (fire_on_done eng pr m fin s) = s_queue s ++ [done_event m a 0].
 Proof. exact fire_on_done_at_most_one. Qed.
 Print Assumptions C10_fire_once.
 
-Theorem C10_fire_nearest : forall eng m fin s,
+Theorem C10_fire_nearest : forall eng pr m fin s,
   (exists pre a post,
       ancestors m fin = pre ++ a :: post
       /\ (forall b, In b pre -> wants_done m (s_cfg s) b = false)
       /\ wants_done m (s_cfg s) a = true
-      /\ fire_on_done eng m fin s = send_self eng (done_event m a 0) s)
+      /\ fire_on_done eng pr m fin s = send_self eng (done_event m a 0) (note_chained eng pr s))
   \/ ((forall b, In b (ancestors m fin) -> wants_done m (s_cfg s) b = false)
-      /\ (fire_on_done eng m fin s = s
-          \/ fire_on_done eng m fin s =
+      /\ (fire_on_done eng pr m fin s = s
+          \/ fire_on_done eng pr m fin s =
              complete (match m_output m with Some o => Some o | None => n_output (nd m fin) end) s)).
 Proof. exact fire_on_done_cases. Qed.
 Print Assumptions C10_fire_nearest.
